@@ -71,12 +71,12 @@ struct Case {
     fin: [Option<usize>; 3], cons_local: Option<usize>, detached: Option<bool>, consumed: usize, race: bool,
 }
 
-struct St { cur: usize, own: [usize; 3], poison: Option<String> }
+struct St { cur: usize, own: [usize; 3], running: [bool; 3], poison: Option<String> }
 
 struct Sched {
     evs: Vec<Ev>,
     mine: [Vec<usize>; 3],                                  // per thread: the positions of its events in `evs`
-    words: [AtomicUsize; 3], last_addr: AtomicUsize,
+    words: [AtomicUsize; 3], last_addr: AtomicUsize, salt: usize,
     st: Mutex<St>, cv: Condvar,
 }
 
@@ -89,6 +89,7 @@ impl Sched {
     /// a role thread has run its whole program (or is unwinding)
     fn finish(&self, t: usize) {
         let mut st = self.st.lock().unwrap();
+        st.running[t] = false; self.cv.notify_all();
         if let Some(&k) = self.mine[t].get(st.own[t]) {
             let what = format!("at ev {} (line {}): {} finished its program, expected `{}`", k, self.evs[k].line, NAMES[t], self.evs[k].show());
             self.poison(&mut st, what);
@@ -131,11 +132,15 @@ impl Listener for Sched {
                 }
             }
         }
+        // ONE thread runs at a time: this thread parks until every earlier line of the case has been performed AND every other role thread is
+        // parked at one of its own lines (or has finished) - whatever a thread does between two of its lines (its data accesses in particular)
+        // then happens in exactly that interval of the machine execution; an operation starts as early as this rule allows
+        st.running[t] = false; self.cv.notify_all();
         let deadline = Instant::now() + TIMEOUT;
-        while st.cur != k {
+        while st.cur != k || (0..3).any(|o| o != t && st.running[o]) {
             let now = Instant::now();
             if now >= deadline {
-                let c = self.evs[st.cur];
+                let c = self.evs[st.cur.min(self.evs.len() - 1)];
                 let what = format!("at ev {} (line {}): timeout, `{}` never came ({} waits with ev {})", st.cur, c.line, c.show(), NAMES[t], k);
                 self.poison(&mut st, what);
             }
@@ -144,6 +149,7 @@ impl Listener for Sched {
         }
         st.cur += 1;
         st.own[t] += 1;
+        st.running[t] = true;
         self.cv.notify_all();
         if x.store { None } else { Some(x.val) }
     }
@@ -195,8 +201,18 @@ fn consumer<const W: bool>(s: &Arc<Sched>, prog: &[Item], c: ConsIter<'static, R
                 let mut dst = vec![u64::MAX - 1; n];
                 let r = match &mut c {
                     Cons::A(c) => {
-                        PROBE.with(|p| p.set(Probe { base: dst.as_mut_ptr() as usize, modulus: n, start: 0, count: n, first: pos + add }));
-                        c.copy_slice(&mut dst).is_some()
+                        let variant = (s.salt / 8 + OPNO.with(|c| c.get())) % 5;
+                        let probed = !(n == 1 && variant == 3);        // `pop` hands the value out by return
+                        PROBE.with(|p| p.set(Probe { base: dst.as_mut_ptr() as usize, modulus: n.max(1), start: 0, count: if probed { n } else { 0 }, first: pos + add }));
+                        match (n, variant) {
+                            (1, 1) => c.copy_item(&mut dst[0]).is_some(),
+                            (1, 2) => c.clone_item(&mut dst[0]).is_some(),
+                            (1, 3) => match c.pop() { Some(x) => { dst[0] = x; true } None => false },
+                            (1, 4) => match c.peek_ref() { Some(x) => { dst[0] = *x; unsafe { c.advance(1) }; true } None => false },
+                            (k, 1) if k > 1 => c.clone_slice(&mut dst).is_some(),
+                            (k, 2) if k > 1 => match c.peek_slice(k) { Some((h, t)) => { for (d, x) in dst.iter_mut().zip(h.iter().chain(t.iter())) { *d = *x; } unsafe { c.advance(k) }; true } None => false },
+                            _ => c.copy_slice(&mut dst).is_some(),
+                        }
                     }
                     Cons::D(d) => match d.get_workable_slice_exact(n) {
                         Some((h, t)) => {
@@ -234,8 +250,8 @@ fn run(case: Case) -> Result<usize, String> {
     let events = case.evs.len();
     let mine = [0, 1, 2].map(|t| (0..events).filter(|&k| case.evs[k].thr == t).collect::<Vec<_>>());
     let s = Arc::new(Sched {
-        evs: case.evs, mine, words: [AtomicUsize::new(0), AtomicUsize::new(0), AtomicUsize::new(0)], last_addr: AtomicUsize::new(0),
-        st: Mutex::new(St { cur: 0, own: [0; 3], poison: None }), cv: Condvar::new(),
+        evs: case.evs, mine, words: [AtomicUsize::new(0), AtomicUsize::new(0), AtomicUsize::new(0)], last_addr: AtomicUsize::new(0), salt: case.k,
+        st: Mutex::new(St { cur: 0, own: [0; 3], running: [true, case.three, true], poison: None }), cv: Condvar::new(),
     });
     hooks::set_listener(Some(s.clone()));
     let len = case.len;
@@ -252,7 +268,15 @@ fn run(case: Case) -> Result<usize, String> {
                 op_start(next, from)?;
                 let v: Vec<u64> = (next..next + n as u64).collect();
                 PROBE.with(|c| c.set(Probe { base: $slots, modulus: len, start: next as usize % len, count: n, first: next }));
-                let r = $p.push_slice(&v).is_some();
+                let r = match (n, (sp.salt + OPNO.with(|c| c.get())) % 4) {
+                    (1, 1) => $p.push(v[0]).is_ok(),
+                    (1, 2) => $p.push_init(v[0]).is_ok(),
+                    (1, 3) => match $p.get_next_item_mut_init() { Some(x) => { unsafe { x.write(v[0]); $p.advance(1); } true } None => false },
+                    (k, 1) if k > 1 => $p.push_slice_clone(&v).is_some(),
+                    (k, 2) if k > 1 => $p.push_slice_init(&v).is_some(),
+                    (k, 3) if k > 1 => match unsafe { $p.get_next_slices_mut(k) } { Some((h, t)) => { for (d, x) in h.iter_mut().chain(t.iter_mut()).zip(v.iter()) { *d = *x; } unsafe { $p.advance(k) }; true } None => false },
+                    _ => $p.push_slice(&v).is_some(),
+                };
                 if r { next += n as u64; }
                 op_end(r, exp)
             });
